@@ -680,6 +680,8 @@ struct Value {
             }
         } else if (type == ValueType::ValuePtr) {
             return value_->operator<(val);
+        } else if (val.Type() == ValueType::ValuePtr) {
+            return operator<(*(val.value_));
         }
 
         return (type < val.Type());
@@ -727,6 +729,8 @@ struct Value {
             }
         } else if (type == ValueType::ValuePtr) {
             return value_->operator>(val);
+        } else if (val.Type() == ValueType::ValuePtr) {
+            return operator>(*(val.value_));
         }
 
         return (type > val.Type());
@@ -774,6 +778,8 @@ struct Value {
             }
         } else if (type == ValueType::ValuePtr) {
             return value_->operator<=(val);
+        } else if (val.Type() == ValueType::ValuePtr) {
+            return operator<=(*(val.value_));
         }
 
         return (type < val.Type());
@@ -821,6 +827,8 @@ struct Value {
             }
         } else if (type == ValueType::ValuePtr) {
             return value_->operator>=(val);
+        } else if (val.Type() == ValueType::ValuePtr) {
+            return operator>=(*(val.value_));
         }
 
         return (type > val.Type());
@@ -868,6 +876,8 @@ struct Value {
             }
         } else if (type == ValueType::ValuePtr) {
             return value_->operator==(val);
+        } else if (val.Type() == ValueType::ValuePtr) {
+            return operator==(*(val.value_));
         }
 
         // values of different kinds are never equal.
